@@ -189,12 +189,20 @@ def _fe_entries(m, x, H, D, addr, upto):
     return t.forall([j], t.implies(t.and_(t.le(t.ZERO, j), t.lt(j, upto)), body), pats=[[key]])
 
 
+def _fe_only_labels(m, D, addr):
+    """the container holds nothing but labels of the flags table and the private marker"""
+    key = t.var('fek!', t.STR)
+    present = t.T(t.BOOL, 'select', (t.T('Keys', 'select', (D, addr)), key))
+    return t.forall([key], t.implies(present, t.or_(t.eq(key, S('_flagsenum')), t.app('map_has', t.BOOL, m.ident, t.app('VStr', t.VAL, key)))), pats=[[present]])
+
+
 def _fe_inv(L):
     pre = L.extra['pre']
     m = pre.self.fields['flags']
     x = t.app('toint', t.INT, pre['obj'].t)
     R = L.obj('obj2')
     return [('labels-decoded-so-far', _fe_entries(m, x, L.st.ghost['H'], L.st.ghost['D'], R.addr, L.k)),
+            ('nothing-but-labels-and-the-marker', _fe_only_labels(m, L.st.ghost['D'], R.addr)),
             ('result-container-keeps-its-identity', t.eq(R.addr, L.oldobj('obj2').addr))]
 
 
@@ -205,6 +213,8 @@ def _fe_decode_ok(pre, post):
     addr = post.st.get(r).addr if isinstance(r, VRef) else t.app('ref', t.INT, r.t)
     n = t.app('map_len', t.INT, m.ident)
     return [('every-label-is-set-exactly-when-all-bits-of-its-mask-are-set', _fe_entries(m, x, post.st.ghost['H'], post.st.ghost['D'], addr, n), TM),
+            ('result-holds-nothing-but-labels-and-the-private-marker', _fe_only_labels(m, post.st.ghost['D'], addr), TM + ('C02',)),
+            ('returns-a-container', t.TRUE if isinstance(r, VRef) else t.app('(_ is VRef)', t.BOOL, r.t), TM),
             ('result-is-a-fresh-container', t.ge(addr, pre.st.ghost['alloc']), TM + ('C17',))]
 
 
@@ -306,7 +316,24 @@ def _fe_encode_ok(pre, post):
 
 
 def _fe_encode_bad(pre, post):
-    return [('anything-refused-is-MappingError', exc_is(post, 'MappingError'), TM)] + list(generic_raise(pre, post))
+    out = [('anything-refused-is-MappingError', exc_is(post, 'MappingError'), TM)] + list(generic_raise(pre, post))
+    isint, isstr, isdict = _fe_kind(pre)
+    m = pre.self.fields['flags']
+    a = t.app('ref', t.INT, _fe_obj(pre))
+    H, D = pre.st.ghost['H'], pre.st.ghost['D']
+    d = t.T('Keys', 'select', (D, a))
+    kk = post.st.ghost.get('loop_k')
+    ghost_mode = getattr(post.eng.models, 'ghost_mode', False)
+    if kk is None or ghost_mode:
+        kk = fresh('refused_entry', t.INT)
+    key = t.app('cont_key', t.STR, d, kk)
+    val = t.T(t.VAL, 'select', (t.T('Fields', 'select', (H, a)), key))
+    out.append(('a-mapping-is-refused-only-for-a-true-label-the-table-does-not-know',
+                t.implies(t.and_(t.not_(isint), t.not_(isstr), isdict),
+                          t.and_(t.le(t.ZERO, kk), t.lt(kk, t.app('cont_len', t.INT, d)), t.T(t.BOOL, 'select', (d, key)), t.not_(t.str_prefixof(S('_'), key)), t.app('truthy', t.BOOL, val),
+                                 t.not_(t.app('map_has', t.BOOL, m.ident, t.app('VStr', t.VAL, key))))), TM + ('C02',)))
+    out.append(('an-integer-is-never-refused', t.not_(isint), TM))
+    return out
 
 
 fcontract('FlagsEnum', '_encode', [
